@@ -61,7 +61,7 @@ DoRemap(pid, v, ds) ==
       T == UNION {Targets(ds[i]) : i \in 1..n}
       dv == IF "RemapRecordsGivenDeviceID" \in Deviations /\ \E i \in 1..n : ~Actual(ds[i])
             THEN {"RemapRecordsGivenDeviceID"} ELSE {} IN
-  /\ \A t \in T : LiveOn(t) + n <= Dev(t).n
+  /\ \A t \in T : LiveOn(t) + Cardinality({i \in 1..n : t \in Targets(ds[i])}) <= Dev(t).n
   /\ IF \A i \in 1..n : Cardinality(FreeOn(Targets(ds[i]))) >= Cardinality({j \in 1..n : ds[j] = ds[i]})
      THEN IF PickAny /\ \A i \in 1..n : ds[i] = ds[1]
           THEN \E ps \in Picks(FreeOn(Targets(ds[1])), n) : Remap(pid, v, ds, ps, dv)
